@@ -659,7 +659,12 @@ pub fn run_case(case: &Case) -> Vec<Value> {
     let mut known = Known::default();
     let mut executed: Vec<StepIn> = vec![];
 
+    let journal = std::env::var("VERIF_JOURNAL").ok();
     let mut do_step = |host: &mut Box<dyn Host>, known: &mut Known, step: &StepIn| -> Option<Value> {
+        // a step that aborts the process (allocation failure, stack overflow) leaves its name behind
+        if let Some(j) = &journal {
+            let _ = std::fs::write(j, json!({"case": case, "about_to": step}).to_string());
+        }
         let r = catch_unwind(AssertUnwindSafe(|| match step {
             StepIn::Run { p } => Some(host.run(*p)),
             StepIn::Noop => host.noop(),
